@@ -551,7 +551,15 @@ impl Ord for OrderedFloat64 {
 
 impl Hash for OrderedFloat64 {
     fn hash<H: Hasher>(&self, state: &mut H) {
-        self.0.to_bits().hash(state);
+        // Equal values must hash equally: every NaN equals every other NaN and -0.0 == 0.0
+        let bits = if self.0.is_nan() {
+            f64::NAN.to_bits()
+        } else if self.0 == 0.0 {
+            0u64
+        } else {
+            self.0.to_bits()
+        };
+        bits.hash(state);
     }
 }
 
